@@ -437,18 +437,24 @@ def check_C10(res, ctx):
         rng = rng_for(ctx.seed, "C10db", i)
         cfg = engine.rand_cfg(rng, io=0, fs=rng.choice([4096, 65536]))
         cfg["idx"] = 1 + i % 3
+        cfg["shards"] = [1, 2, 3, 16, 1024][(i // 3) % 5]
         ops, exp = itercheck.db_level(rng, engine.open_line("d", cfg), 40 if ctx.quick else 80)
         res.count("db_level")
-        exact_check(res, ctx, "DB iterator run %d" % i, ops, exp)
+        res.count("db_level:idx%d" % cfg["idx"])
+        res.count("db_level:shards%d" % cfg["shards"])
+        exact_check(res, ctx, "DB iterator run %d (index type %d, %d shards)" % (i, cfg["idx"], cfg["shards"]), ops, exp)
         if i == 0:
             res.sample({"db_level_ops": ops[:20]})
     # ListKeys / Fold visit the same snapshot: covered by the reference oracle of the C01 histories; one here
     rng = rng_for(ctx.seed, "C10lk")
     g = engine.Gen(rng, engine.rand_cfg(rng, io=0), nkeys=30, weights={"keys": 10, "fold": 10, "reopen": 0})
     engine_history_check(res, ctx, "ListKeys/Fold history", g.history(100))
+    for k, v in sorted(itercheck.STATS.items()):
+        res.count(k, v)
     return "index level: ShardedIndex x {btree, skiplist, map} x requested shards {1,2,3,16,1024}, random key sets with shared prefixes, two " \
-           "iterators per run, admissible Rewind/Seek/Next sequences (seek targets at or ahead of the cursor), writes after creation; DB level: " \
-           "prefix and direction, values by captured position; oracle: abstract cursor over the sorted snapshot"
+           "iterators per run, ARBITRARY Rewind/Seek/Next sequences (Seek targets ahead of the cursor, behind it, on an exhausted iterator, " \
+           "several Seeks in a row), writes after creation; DB level: the same x index type x shards {1,2,3,16,1024}, prefix and direction, " \
+           "values by captured position; oracle: abstract cursor over the sorted snapshot whose Seek never moves backwards"
 
 
 def check_C05(res, ctx):
@@ -687,37 +693,77 @@ def check_C14(res, ctx):
                           {"ops_a": ops0, "ops_b": transcripts[1][1]})
         if i < 1:
             res.sample({"body_head": body[:15], "configs": [t[0] for t in transcripts]})
-    # cursor scripts (Seek / Rewind / Next / prefix / reverse, writes behind the cursors) under every index type
+    # cursor scripts (ARBITRARY Seek / Rewind / Next sequences: backward Seeks, Seek on an exhausted iterator, several Seeks in
+    # a row; prefix / reverse; writes behind the cursors) under every index type x shard count: one transcript
     from . import itercheck
+    SHARDS = (1, 2, 3, 16, 1024)
+
+    def same(kind, ops, runs):
+        c0, o0, t0 = runs[0]
+        for cfg, o2, t in runs[1:]:
+            for (op, a, b) in zip(ops, t0, t):
+                if a != b:
+                    res.violation("same %s cursor calls, different results: `%s` -> %s under %s but %s under %s" % (kind, op, a[:200], c0, b[:200], cfg),
+                                  {"ops_a": o0, "ops_b": o2, "first_difference": op})
+                    return
+
     for i in range(6 if ctx.quick else 80):
         rng = rng_for(ctx.seed, "C14it", i)
         ops, exp = itercheck.db_level(rng, "OPEN", 40 if ctx.quick else 120)
-        outs_by = []
+        runs = []
         for idx in (1, 2, 3):
-            cfg = {"fs": 65536, "sync": 0, "bps": 0, "idx": idx, "io": 0, "shards": rng.choice([1, 3, 16])}
-            o2 = [engine.open_line("d", cfg)] + ops[1:]
-            bdir = ctx.scratch.fresh()
-            try:
-                outs = run_impl(o2, bdir)
-            finally:
-                ctx.scratch.drop(bdir)
-            res.case("it%d|%d" % (i, idx), True)
-            res.count("cursor_scripts:idx%d" % idx)
-            outs_by.append((cfg, o2, outs))
-        c0, o0, t0 = outs_by[0]
-        for cfg, o2, t in outs_by[1:]:
-            for (op, a, b) in zip(ops, t0, t):
-                if a != b:
-                    res.violation("same cursor calls, different results: `%s` -> %s under %s but %s under %s" % (op, a[:200], c0, b[:200], cfg),
-                                  {"ops_a": o0, "ops_b": o2, "first_difference": op})
-                    break
+            for sh in SHARDS:
+                cfg = {"fs": 65536, "sync": 0, "bps": 0, "idx": idx, "io": 0, "shards": sh}
+                o2 = [engine.open_line("d", cfg)] + ops[1:]
+                bdir = ctx.scratch.fresh()
+                try:
+                    outs = run_impl(o2, bdir)
+                finally:
+                    ctx.scratch.drop(bdir)
+                res.case("it%d|%d|%d" % (i, idx, sh), True)
+                res.count("cursor_scripts:idx%d" % idx)
+                res.count("cursor_scripts:shards%d" % sh)
+                runs.append((cfg, o2, outs))
+                if idx == 1 and sh == 1:
+                    # ... and that one transcript is the abstract cursor's
+                    for op, o, e in zip(o2, outs, exp):
+                        if e is not None and o != e:
+                            res.violation("DB cursor script %d: `%s` -> %s, expected %s" % (i, op, o[:200], e[:200]), {"ops": o2, "got": o, "expected": e})
+                            break
+        same("DB-level", ops, runs)
+    for i in range(6 if ctx.quick else 80):
+        rng = rng_for(ctx.seed, "C14ix", i)
+        ops, exp = itercheck.index_level(rng, 1, 1, 40 if ctx.quick else 120)
+        runs = []
+        for typ in (1, 2, 3):
+            for sh in SHARDS:
+                o2 = ["ix.new %d %d" % (typ, sh)] + ops[1:]
+                bdir = ctx.scratch.fresh()
+                try:
+                    outs = run_impl(o2, bdir)
+                finally:
+                    ctx.scratch.drop(bdir)
+                res.case("ix%d|%d|%d" % (i, typ, sh), True)
+                res.count("index_cursor_scripts:type%d" % typ)
+                res.count("index_cursor_scripts:shards%d" % sh)
+                runs.append(({"index_type": typ, "shards": sh}, o2, outs))
+                if typ == 1 and sh == 1:
+                    for op, o, e in zip(o2, outs, exp):
+                        if e is not None and o != e:
+                            res.violation("index cursor script %d: `%s` -> %s, expected %s" % (i, op, o[:200], e[:200]), {"ops": o2, "got": o, "expected": e})
+                            break
+        same("index-level", ops, runs)
+    for k, v in sorted(itercheck.STATS.items()):
+        res.count("cursor_scripts:" + k, v)
     # shard count normalisation
     vals = [1, 2, 3, 4, 5, 15, 16, 17, 31, 33, 511, 512, 513, 1023, 1024, 1025, 4096, 65535, 1 << 20, 1 << 31]
     exact_check(res, ctx, "nextPowerOfTwo", ["ix.npot %d" % v for v in vals],
                 [str(min(1024, 1 << (v - 1).bit_length())) for v in vals])
     return "one operation sequence executed under several configurations (index type x shard count x I/O type x DataFileSize x SyncStrategy): " \
            "the transcripts of all result-bearing calls (values, errors, key order, iterator steps, recovered dump) must be identical; with equal " \
-           "limits the data-file bytes of standard and mmap I/O must be identical; every third run reuses and scribbles the caller's buffers"
+           "limits the data-file bytes of standard and mmap I/O must be identical; every third run reuses and scribbles the caller's buffers; " \
+           "cursor scripts with ARBITRARY Rewind/Next/Seek sequences (backward Seeks, Seek on an exhausted iterator, Seeks in a row) at DB " \
+           "level and index level under index type {1,2,3} x shards {1,2,3,16,1024}: one transcript, equal to the abstract cursor's"
 
 
 def check_C15(res, ctx):
